@@ -21,7 +21,10 @@ MiB = 1 << 20
 SIZES = {"0.5MiB": MiB // 2, "1MiB-36": MiB - 36, "1MiB-32": MiB - 32, "1MiB-4": MiB - 4, "1MiB": MiB,
          "1MiB+4": MiB + 4, "3MiB": 3 * MiB}
 NAME = "m.onnx"
-VARIANTS = [("WAppend", True), ("WAppend", False), ("WTruncate", True), ("WTruncate", False)]
+# (code removes an old sidecar before writing, onnx writer, onnx CWD-relative existence check); with the removal
+# the two writers are indistinguishable (the writer never finds an old file), so only WAppend is listed there
+VARIANTS = [(True, "WAppend", True), (True, "WAppend", False),
+            (False, "WAppend", True), (False, "WAppend", False), (False, "WTruncate", True), (False, "WTruncate", False)]
 
 
 def S(*labels, cwd="clean"):
@@ -53,6 +56,11 @@ FIXED = [
     ("dest:large->web->large", [S("1MiB", cwd="dest"), W("1MiB", cwd="dest"), S("1MiB+4", cwd="dest")]),
     ("dest:small->large", [S("0.5MiB", cwd="dest"), S("1MiB", cwd="dest")]),
     ("clash:first-export", [S("0.5MiB", cwd="clash"), S("1MiB")]),
+    ("clash:after-large", [S("1MiB"), S("0.5MiB", cwd="clash"), S("1MiB+4")]),
+    ("clash:after-small", [S("0.5MiB"), S("3MiB", cwd="clash")]),
+    ("clash:web-unaffected", [S("1MiB"), W("1MiB", cwd="clash")]),
+    ("clash:double-raise-then-recover", [S("1MiB"), S("0.5MiB", cwd="clash"), S("1MiB-36", cwd="clash"), S("1MiB+4", cwd="dest")]),
+    ("dest:large->large->large", [S("3MiB", cwd="dest"), S("1MiB", cwd="dest"), S("1MiB+4", cwd="dest")]),
 ]
 
 
@@ -140,6 +148,7 @@ def run_history(h, root, seed, fails, stats):
     orig = os.getcwd()
     recs = []
     last_ok = None           # deterministic bytes of the last proto whose file export did not raise
+    disk_ok = True           # the file on disk loads to last_ok (or nothing was exported yet)
     x = np.array([1.5], np.float32)
     try:
         for k, st in enumerate(h):
@@ -173,7 +182,16 @@ def run_history(h, root, seed, fails, stats):
                               f"return_mode='file' export_mode={st['mode']!r} raised {type(raised).__name__}: {raised} "
                               f"(cwd={st['cwd']}, directory before: {pre}) while proto/ir modes delivered the model"))
                 if listing != pre:
-                    fails.append((k, "raising-export-changed-files", f"{pre} -> {listing}"))
+                    damaged = ""
+                    if last_ok is not None:
+                        try:
+                            damaged = ("" if det(normalise(onnx.load(env.path))) == last_ok
+                                       else "; the previous export now loads to a DIFFERENT model")
+                        except Exception as e2:  # noqa: BLE001
+                            damaged = f"; the previous export no longer loads ({type(e2).__name__})"
+                    fails.append((k, "raising-export-changed-files",
+                                  f"the export raised {type(raised).__name__} but changed the output directory: "
+                                  f"{pre} -> {listing}{damaged}"))
             else:
                 last_ok = pb
                 if ret != out_path:
@@ -203,10 +221,13 @@ def run_history(h, root, seed, fails, stats):
                                       f" (initializers with different bytes: {bad}; refs {rec['refs']}, files {listing})"))
                 except Exception as e:  # noqa: BLE001
                     reload_equal = False
-                    fails.append((k, "reload-fails", f"onnx.load: {type(e).__name__}: {e}"))
-                if raised is not None and last_ok is not None and not reload_equal:
+                    if raised is None:
+                        fails.append((k, "reload-fails", f"onnx.load: {type(e).__name__}: {e}"))
+                if raised is not None and last_ok is not None and not reload_equal and listing == pre and disk_ok:
+                    # (disk_ok: it did load before this step; damage done by an EARLIER raising export is reported there)
                     fails.append((k, "raising-export-damaged-previous", "file no longer loads to the previous export"))
             rec["reload_equal"] = bool(reload_equal)
+            disk_ok = bool(reload_equal)
             if raised is None:
                 # ---- same outputs: proto bytes, ir bytes, the file (onnxruntime resolves the sidecar itself)
                 iname = proto.graph.input[0].name
@@ -303,8 +324,8 @@ def coq_cases(hists, recs_all, thr):
         txt += f"Definition e{i} : list obs := [" + "; ".join(coq_obs(r) for r in recs) + "].\n"
     txt += "Definition cases : list (list (step RleOps) * list obs) := [" + "; ".join(
         f"(h{i}, e{i})" for i in range(len(hists))) + "].\n"
-    for w, chk in VARIANTS:
-        txt += (f"Eval vm_compute in bad_idx_ (fun c => obs_list_eqb (run_obs (Build_onnx_variant {w} {common.blit(chk)}) "
+    for rb, w, chk in VARIANTS:
+        txt += (f"Eval vm_compute in bad_idx_ (fun c => obs_list_eqb (run_obs (Build_variant {w} {common.blit(chk)} {common.blit(rb)}) "
                 f"{n_(thr)} P (init RleOps []) (fst c)) (snd c)) 0 cases.\n")
     return txt
 
@@ -315,9 +336,12 @@ def run(ctx):
     ctx.trusted_base = [
         "Coq 8.16.1 kernel; vm_compute (no native_compute); no axioms (all theorems closed under the global context)",
         "ASSUMED onnx.save_model(save_as_external_data=True, all_tensors_to_one_file=True, location=L, size_threshold=T): "
-        "initializers with sys.getsizeof(raw_data) >= T are written in order at the END of the existing file L (append; "
-        "variant WTruncate also covered by the theorems) and (location, offset, length) recorded; raises FileExistsError "
-        "before writing anything when a file named L exists relative to the process CWD (variant without the check also covered)",
+        "initializers with sys.getsizeof(raw_data) >= T are written in order at the END of the file L if it exists (append; "
+        "variant WTruncate also covered; unobservable since the code removes L first) and (location, offset, length) recorded; "
+        "raises FileExistsError before writing anything when a file named L exists relative to the process CWD (variant "
+        "without the check also covered)",
+        "model variant of the jax2onnx code (removal of the old sidecar before writing: yes/no) is selected by the tie; "
+        "the strong theorems need `yes`, which is a named obligation",
         "ASSUMED onnx.load: resolves external references by (location, offset, length) against the current directory with bounds checks",
         "ASSUMED protobuf: parse(serialize(model)) = model (the main file is an opaque container `FMain`)",
         "these three are validated on this run by Tie D (file set, sidecar size, offsets, lengths, reload result per step of every history)",
@@ -368,6 +392,8 @@ def run(ctx):
             st = h[k]
             if what == "file-export-raises:FileExistsError" and st["cwd"] in ("dest", "clash"):
                 key = f"file-export-raises:FileExistsError@cwd={st['cwd']}"     # one defect, stable key
+            elif what == "raising-export-changed-files" and st["cwd"] == "clash":
+                key = "raising-export-changed-files@cwd=clash"
             else:
                 key = f"{hist_key(h[:k + 1])}:{what}"
             fail_counts[what] = fail_counts.get(what, 0) + 1
@@ -411,16 +437,22 @@ def run(ctx):
             b = bad_per_variant[v0][:3]
             detail = f"no assumed-writer variant reproduces the observations; with {v0} the model differs on: " + "; ".join(
                 f"{hists[i][0]} {hist_key(hists[i][1])} observed {[coq_obs(r) for r in recs_all[i]]}" for i in b)
-        ctx.oblige(f"tie:model-equals-real-files-refs-load({len(hists)} histories, {n_steps} exports, writer variant "
+        ctx.oblige(f"tie:model-equals-real-files-refs-load({len(hists)} histories, {n_steps} exports, variant (remove-before, writer, cwd-check) = "
                    f"{variant})", variant is not None, "tie", detail)
-        ctx.coverage["writer_variant"] = {"writer": variant[0], "cwd_existence_check": variant[1]} if variant else None
+        ctx.coverage["variant"] = ({"code_removes_old_sidecar_before_writing": variant[0], "writer": variant[1],
+                                    "cwd_existence_check": variant[2]} if variant else None)
+        if variant is not None:
+            # the strong theorems (C15_load_after_save, C15_history_independent, C15_sidecar_exact) are about this variant
+            ctx.oblige("tie:current-code-removes-old-sidecar-before-writing(variant `repaired`)", variant[0], "tie",
+                       "" if variant[0] else f"the code behaves like the variant without the removal {variant}: re-exports "
+                                             f"append to / trip over the old sidecar")
 
     ctx.coverage.update({
         "evaluations": stats["exports"] * 3 + stats["ort_runs"] + n_steps * len(VARIANTS),
         "real_file_exports": stats["exports"], "histories": len(hists), "random_histories": n_rand,
         "distinct_nontrivial": len(nontrivial),
         "rule": "every step = 3 real conversions (proto, ir, file) + reload with/without external data + 3-4 onnxruntime runs; "
-                "the Coq model is evaluated on every history under 4 writer variants; non-trivial = distinct (sidecar size before, "
+                "the Coq model is evaluated on every history under 6 code/writer variants; non-trivial = distinct (sidecar size before, "
                 "mode, parameter sizes, cwd) where a sidecar pre-exists or the export spills",
         "threshold": {"external_threshold_in_source": thr_src, "sys.getsizeof(b'')": overhead, "effective_byte_threshold": thr},
         "histogram": {"mode": histo_mode, "size": histo_size, "cwd": histo_cwd},
@@ -428,8 +460,8 @@ def run(ctx):
             "exports_that_raised": stats["raised"], "raised_by_cwd": raises_by_cwd,
             "steps_leaving_an_unreferenced_sidecar_behind": stats["leftover_unreferenced_sidecar"],
             "max_unreferenced_bytes_in_sidecar": stats["sidecar_garbage_bytes_max"],
-            "note": "a leftover / growing sidecar is never picked up (offsets recorded correctly): observation, not a violation; "
-                    "formalised as C15_sidecar_exact_refuted / _partial",
+            "note": "unreferenced sidecar bytes would be an observation, not a violation (never picked up); for the repaired code "
+                    "C15_sidecar_exact / C15_history_independent prove there are none, so both counters are expected to be 0",
             "ort_output_differs_from_numpy": stats["ort_vs_numpy_diff"]},
         "real_code_failures_by_kind": fail_counts,
         "exhaustive": False,
